@@ -575,10 +575,10 @@ func (s *statusRes) Load() *model.ClusterStatus { return s.st }
 func (s *statusRes) LoadWithVersion() (*model.ClusterStatus, metadata.Version) {
 	return s.st, metadata.Version("0")
 }
-func (s *statusRes) Swap(*model.ClusterStatus, metadata.Version) bool          { return true }
-func (s *statusRes) Update(*model.ClusterStatus)                               {}
-func (s *statusRes) UpdateShardMetadata(string, int64, model.ShardMetadata)    {}
-func (s *statusRes) DeleteShardMetadata(string, int64)                         {}
+func (s *statusRes) Swap(*model.ClusterStatus, metadata.Version) bool       { return true }
+func (s *statusRes) Update(*model.ClusterStatus)                            {}
+func (s *statusRes) UpdateShardMetadata(string, int64, model.ShardMetadata) {}
+func (s *statusRes) DeleteShardMetadata(string, int64)                      {}
 
 func runSwap(o *hx.Out, e *env, ens []int, from int) {
 	input := fmt.Sprintf("%s %s %d", e.line(), joinInts(ens, ","), from)
@@ -1149,6 +1149,8 @@ func replayLine(o *hx.Out, line string) {
 		from, _ := strconv.Atoi(a[2])
 		to, _ := strconv.Atoi(a[3])
 		runSwapNode(o, parseInts(a[0], ","), parseInts(a[1], ","), from, to)
+	case "place": // nodes md rules rf: through the real coordinator (coordleg.go)
+		replayPlace(o, a)
 	case "round": // nodes md rank idx shards reqs  (rank and reqs are re-observed)
 		idx, _ := strconv.ParseInt(a[3], 10, 64)
 		runRound(o, &roundCase{nodes: parseInts(a[0], ","), md: parseMd(a[1]), idx: idx, shards: parseShards(a[4])})
@@ -1181,4 +1183,6 @@ func main() {
 		genSwapNode(r, o)
 		genRound(r, o)
 	}
+	// the coordinator-glue leg has its own stream, so that the cases above do not depend on it
+	genCoordLeg(hx.NewRng(f.Seed+0x5eed19).Fork(), o, f.N/25+6)
 }
